@@ -8,7 +8,7 @@ Local Open Scope Z_scope.
 (* field of the abstract struct table: requiredness, thrift type code (2 bool, 8 i32, 10 i64, 11 string, 12 struct,
    13 map<string,i32>, 15 list<i32>), sub struct index, declared IDL default (thrift binary + JSON text), name, alias *)
 Record cfld := { c_id : Z; c_req : Z; c_ty : Z; c_sub : Z; c_hasdef : bool; c_defbin : list Z; c_defjson : list Z;
-                 c_name : list Z; c_alias : list Z }.
+                 c_name : list Z; c_alias : list Z; c_lit : option dlit }.   (* c_lit: the declared default as the IDL literal *)
 Definition cdefs : Type := list (list cfld).
 Definition to_fld (c : cfld) : fld := {| f_id := c_id c; f_req := c_req c; f_hasdef := c_hasdef c |}.
 Definition cstruct (d : cdefs) (i : Z) : option (list cfld) := if i <? 0 then None else nth_error d (Z.to_nat i).
@@ -22,10 +22,12 @@ Fixpoint parse_cflds (n : nat) (fs : list field) : option (list cfld * list fiel
   | O => Some ([], fs)
   | S n' =>
     match fs with
-    | FZ id :: FZ req :: FZ t :: FZ sub :: FZ hd :: FB db :: FB dj :: FB nm :: FB al :: r =>
+    | FZ id :: FZ req :: FZ t :: FZ sub :: FZ hd :: FB db :: FB dj :: FB nm :: FB al :: FZ lk :: FZ lz :: FB ls :: r =>
       match parse_cflds n' r with
       | Some (l, r') => Some ({| c_id := id; c_req := req; c_ty := t; c_sub := sub; c_hasdef := negb (hd =? 0);
-                                c_defbin := db; c_defjson := dj; c_name := nm; c_alias := al |} :: l, r')
+                                c_defbin := db; c_defjson := dj; c_name := nm; c_alias := al;
+                                c_lit := if lk =? 1 then Some (DInt lz) else if lk =? 2 then Some (DDouble lz)
+                                         else if lk =? 3 then Some (DStr ls) else if lk =? 4 then Some (DBool (negb (lz =? 0))) else None |} :: l, r')
       | None => None
       end
     | _ => None
@@ -151,7 +153,17 @@ Definition cty (f : cfld) : ty :=
 Fixpoint render_t (n : onode) : option (Z * tval) :=
   match n with
   | OVal f (SGiven b _) => match decode_all (c_ty f) b with Some v => Some (c_id f, v) | None => None end
-  | OVal f SDefault => match decode_all (c_ty f) (c_defbin f) with Some v => Some (c_id f, v) | None => None end
+  | OVal f SDefault =>
+    (* the declared default as a value of the field's own type (Requireness.lit_value); the bytes the harness computed for
+       it independently must be the model's mirror of makeDefaultValue (Requireness.make_default_bytes) *)
+    match c_lit f with
+    | Some l =>
+      match lit_value (c_ty f) l, make_default_bytes (c_ty f) l with
+      | Some v, Some bs => if bytes_eqb bs (c_defbin f) then Some (c_id f, v) else None
+      | _, _ => None
+      end
+    | None => None
+    end
   | OVal f SZero => match zero_of (cty f) with Some v => Some (c_id f, v) | None => None end
   | OSub f kids =>
     match (fix go (l : list onode) : option (list (Z * tval)) :=
@@ -165,7 +177,7 @@ Fixpoint render_t (n : onode) : option (Z * tval) :=
   end.
 Definition render_struct (l : list onode) : option tval :=
   match render_t (OSub {| c_id := 0; c_req := 0; c_ty := T_STRUCT; c_sub := 0; c_hasdef := false; c_defbin := []; c_defjson := [];
-                          c_name := []; c_alias := [] |} l) with
+                          c_name := []; c_alias := []; c_lit := None |} l) with
   | Some (_, v) => Some v
   | None => None
   end.
